@@ -78,6 +78,7 @@ fn montgomery(x: &BigUint, y: &BigUint, m: &BigUint, k: BigDigit, n: usize) -> B
     if c == 0 {
         z.data = z.data[n..].to_vec();
     } else {
+        verif_probe!(MontyCarry);
         {
             let (first, second) = z.data.split_at_mut(n);
             sub_vv(first, second, &m.data);
@@ -144,6 +145,7 @@ pub(super) fn monty_modpow(x: &BigUint, y: &BigUint, m: &BigUint) -> BigUint {
     // We want the lengths of x and m to be equal.
     // It is OK if x >= m as long as len(x) == len(m).
     if x.data.len() > num_words {
+        verif_probe!(MontyBaseLonger);
         x %= m;
         // Note: now len(x) <= numWords, not guaranteed ==.
     }
@@ -215,8 +217,10 @@ pub(super) fn monty_modpow(x: &BigUint, y: &BigUint, m: &BigUint) -> BigUint {
         // so do that unconditionally, but double-check,
         // in case our beliefs are wrong.
         // The div is not expected to be reached.
+        verif_probe!(MontyFinalSub);
         zz -= m;
         if zz >= *m {
+            verif_probe!(MontySecondReduce);
             zz %= m;
         }
     }
